@@ -438,21 +438,26 @@ impl AddAssign<Duration> for Epoch {
 /// Equality only checks the duration since J1900 match in TAI, because this is how all of the epochs are referenced.
 impl PartialEq for Epoch {
     fn eq(&self, other: &Self) -> bool {
+        // Durations are compared by their exact parts: Duration equality treats a duration and its
+        // opposite as equal, but an epoch before its reference is not the epoch after it.
         if self.time_scale == other.time_scale {
-            self.duration == other.duration
+            self.duration.to_parts() == other.duration.to_parts()
         } else {
             // If one of the two time scales does not include leap seconds,
             // we always convert the time scale with leap seconds into the
             // time scale that does NOT have leap seconds.
             if self.time_scale.uses_leap_seconds() != other.time_scale.uses_leap_seconds() {
                 if self.time_scale.uses_leap_seconds() {
-                    self.to_time_scale(other.time_scale).duration == other.duration
+                    self.to_time_scale(other.time_scale).duration.to_parts()
+                        == other.duration.to_parts()
                 } else {
-                    self.duration == other.to_time_scale(self.time_scale).duration
+                    self.duration.to_parts()
+                        == other.to_time_scale(self.time_scale).duration.to_parts()
                 }
             } else {
                 // Otherwise it does not matter
-                self.duration == other.to_time_scale(self.time_scale).duration
+                self.duration.to_parts()
+                    == other.to_time_scale(self.time_scale).duration.to_parts()
             }
         }
     }
